@@ -47,7 +47,12 @@ package sourcebundle
 //@   sweep
 //@   requires pre.b: b != nil
 //@   requires pre.inv: rootOK(b) && b.remotePackageDirs != nil
-//@   invariant loop1 C18.reverse.inv: found ==> mapHas(b.remotePackageDirs, pkgAddr) && b.remotePackageDirs[pkgAddr] == localDir
+//@   watch 1: skolem("K", "sourceaddrs.RemotePackage")
+//@   invariant loop1 C18.reverse.inv: (found ==> mapHas(b.remotePackageDirs, pkgAddr) && b.remotePackageDirs[pkgAddr] == localDir)
+//@       && ($seen1 && b.remotePackageDirs[skolem("K", "sourceaddrs.RemotePackage")] == localDir ==> found)
+//@   ensures C18.reverse.complete: !AbsErr(p) && mapHas(b.remotePackageDirs, skolem("K", "sourceaddrs.RemotePackage")) && safeSeg(b.remotePackageDirs[skolem("K", "sourceaddrs.RemotePackage")])
+//@       && (skolem("SUB", "string") == "" || (validPath(skolem("SUB", "string")) && skolem("SUB", "string") != "."))
+//@       && Abs(p) == Join(Join(b.rootDir, b.remotePackageDirs[skolem("K", "sourceaddrs.RemotePackage")]), skolem("SUB", "string")) ==> err == nil
 //@   ensures C18.reverse.inverse: err == nil ==> dyntype(r, "sourceaddrs.RemoteSource") && mapHas(b.remotePackageDirs, unbox(r, "sourceaddrs.RemoteSource").pkg)
 //@       && Join(Join(b.rootDir, b.remotePackageDirs[unbox(r, "sourceaddrs.RemoteSource").pkg]), unbox(r, "sourceaddrs.RemoteSource").subPath) == Abs(p)
 //@   ensures C18.reverse.outside: !AbsErr(p) && (!segUnder(Abs(p), b.rootDir) || Abs(p) == b.rootDir) ==> err != nil
